@@ -1043,7 +1043,10 @@ mod os {
             ensure_child_stream(&mut child_stdout, StandardStream::Output)?;
             ensure_child_stream(&mut child_stderr, StandardStream::Error)?;
             let cmdline = assemble_cmdline(argv)?;
-            let env_block = config.env.map(|env| format_env_block(&env));
+            let env_block = config
+                .env
+                .map(|env| format_env_block(&env))
+                .transpose()?;
             // CreateProcess doesn't search for appname in the PATH.
             // We do it ourselves to match the Unix behavior.
             let executable = config.executable.map(locate_in_path);
@@ -1120,7 +1123,7 @@ mod os {
         }
     }
 
-    fn format_env_block(env: &[(OsString, OsString)]) -> Vec<u16> {
+    fn format_env_block(env: &[(OsString, OsString)]) -> io::Result<Vec<u16>> {
         fn to_uppercase(s: &OsStr) -> OsString {
             OsString::from_wide(
                 &s.encode_wide()
@@ -1133,6 +1136,15 @@ mod os {
                     })
                     .collect::<Vec<_>>(),
             )
+        }
+        // A NUL inside a name or a value would end that entry early and
+        // make the rest of it read as another variable.
+        for (k, v) in env {
+            if k.encode_wide().chain(v.encode_wide()).any(|c| c == 0) {
+                return Err(io::Error::from_raw_os_error(
+                    win32::ERROR_BAD_PATHNAME as i32,
+                ));
+            }
         }
         let mut pruned: Vec<_> = {
             let mut seen = HashSet::<OsString>::new();
@@ -1150,7 +1162,7 @@ mod os {
             block.push(0);
         }
         block.push(0);
-        block
+        Ok(block)
     }
 
     trait PopenOsImpl {
